@@ -48,6 +48,17 @@ Example C15_block_sums_compose_nonvacuous :
   bin1 (bin1 (fun x => x * x + 1) 2) 3 1 = 457 /\ bin1 (fun x => x * x + 1) 6 1 = 457.
 Proof. split; vm_compute; reflexivity. Qed.
 
+(** lazy (chunked) images: binning block by block gives the binned image exactly when the cuts are multiples of the bin size - the
+    second block's bins are the whole signal's bins k, k+1, ... and the block counts add up - and not otherwise (witness) *)
+Theorem C15_aligned_blocks_bin_alike : forall (f : Z -> Z) (n b k j : Z), 0 < b -> 0 <= k -> b * k <= n ->
+  bin1 (fun x => f (b * k + x)) b j = bin1 f b (k + j) /\ npix (b * k) b + npix (n - b * k) b = npix n b.
+Proof. intros f n b k j Hb Hk Hn. split; [apply bin1_shift|apply chunk_counts; assumption]. Qed.
+
+Theorem C15_misaligned_blocks_refuted :
+  exists (f : Z -> Z) (n b c : Z), 0 < b /\ 0 < c < n /\ c mod b <> 0 /\
+    (npix c b + npix (n - c) b <> npix n b \/ bin1 (fun x => f (c + x)) b 0 <> bin1 f b (npix c b)).
+Proof. exact misaligned_cut_differs. Qed.
+
 Print Assumptions C15_shape.
 Print Assumptions C15_blocks_tile.
 Print Assumptions C15_block_in_range.
@@ -57,3 +68,5 @@ Print Assumptions C15_load_coordinate.
 Print Assumptions C15_binning_composes.
 Print Assumptions C15_block_sums_compose.
 Print Assumptions C15_shapes_compose.
+Print Assumptions C15_aligned_blocks_bin_alike.
+Print Assumptions C15_misaligned_blocks_refuted.
